@@ -9,6 +9,7 @@ import VotelibDriver.Json
 import VotelibDriver.C01
 import VotelibModel.Mono
 import VotelibModel.Score
+import VotelibModel.ShapeSequential
 open Lean
 namespace VL.Drv.C17
 open VL VL.Convert VL.Mono
@@ -77,6 +78,7 @@ inductive RankedRule where
   | positional (sc : Scorer)
   | bucklin
   | bucklinWhole
+  | pa (coef : Nat → Rat) (split : Bool)
   | copeland (so : Bool)
   | minimax (sc : Condorcet.Scorer)
   | schulze
@@ -94,6 +96,11 @@ def rankedRule (rule : String) (j : Json) : Except String (Option RankedRule) :=
     pure (some (.positional (.sequence seq)))
   | "bucklin" => pure (some .bucklin)
   | "bucklin_whole" => pure (some .bucklinWhole)
+  | "pa_list" | "pa_list_whole" => do
+    let a ← pArr (← j.getObjVal? "param")
+    let l ← a.mapM jsonRat
+    pure (some (.pa (coefOfList l) (rule = "pa_list")))
+  | "pa_call" => pure (some (.pa ShapeSeq.coefOklahoma true))
   | "copeland" => do pure (some (.copeland ((← j.getObjValAs? Nat "param") != 0)))
   | "minimax_wv" => pure (some (.minimax .winningVotes))
   | "minimax_margins" => pure (some (.minimax .margins))
@@ -105,6 +112,21 @@ def evalRanked : RankedRule → RProfile → Except Err (List Slot)
   | .positional sc, p => evalPositional sc p
   | .bucklin, p => evalBucklinSplit p
   | .bucklinWhole, p => evalBucklin p
+  | .pa coef split, p =>
+    -- the one-seat model of VotelibModel.Mono, cross-checked against the multi-seat model of C08 (ShapeSequential)
+    let mine := if split then evalPASplit coef p else evalPA coef p
+    let canonSlot : Slot → Slot := fun s => match s with
+      | .tie cs => .tie (cs.foldl (fun a c => Condorcet.insertSorted c a) [])
+      | s => s
+    let canonR : Except Err (List Slot) → Except Err (List Slot) := fun r => match r with
+      | .ok l => .ok (l.map canonSlot)
+      | e => e
+    let same : Bool := match canonR mine, canonR (ShapeSeq.preferenceAddition coef split p 1) with
+      | .ok a, .ok b => decide (a = b)
+      | .error a, .error b => decide (a = b)
+      | _, _ => false
+    if same then mine
+    else .error (.other "C17 and C08 models of PreferenceAddition differ")
   | .copeland so, p => .ok (evalCopeland so p)
   | .minimax sc, p => .ok (evalMinimax sc p)
   | .schulze, p => .ok (evalSchulze p)
